@@ -33,10 +33,11 @@ fn denied(name: &str) -> bool {
 }
 
 /// value pool; `@array` etc. are replaced by live handles of a prepared session
-const POOL: [&str; 26] = [
-    "9223372036854775807", "-9223372036854775808", "\n", "aé😀日", "@selfarray", "@selfmap", "@outercycle", "j", "a=b", "", "a", "a b", "é😀", "-1", "0", "1", "2.5", "99999999999999999999", "@array", "@map", "@set", "@bytes", "@released", "-r", "a\nb", "--FLAG",
+const POOL: [&str; 27] = [
+    "9223372036854775807", "-9223372036854775808", "\n", "aé😀日", "NaN", "@selfarray", "@selfmap", "@outercycle", "j", "a=b", "", "a", "a b", "é😀", "-1", "0", "1", "2.5", "99999999999999999999", "@array", "@map", "@set", "@bytes", "@released", "-r", "a\nb", "--FLAG",
 ];
-const FLAGS: [&str; 4] = ["--copy", "--prefix", "--collection", "--file"];
+/// every option flag a command of the library (outside the excluded ones) knows
+const FLAGS: [&str; 18] = ["--copy", "--prefix", "--collection", "--file", "--handle", "--type", "--style", "--color", "--recursive", "--path", "--include-hidden", "--content", "--append", "--algo", "--base", "--silent", "-s", "-c"];
 
 struct Prepared {
     s: Session,
@@ -131,6 +132,7 @@ fn class_of_arg(v: &str) -> &'static str {
         "99999999999999999999" | "9223372036854775807" => "huge-number",
         "-9223372036854775808" => "most-negative-number",
         "2.5" => "decimal",
+        "NaN" => "not-a-number",
         "@selfarray" | "@selfmap" | "@outercycle" => "self-containing-collection",
         "j" => "name-of-huge-json-array",
         x if x.starts_with('@') => "handle",
@@ -142,8 +144,8 @@ fn class_of_arg(v: &str) -> &'static str {
 
 pub fn bounds(tier: Tier) -> Value {
     match tier {
-        Tier::Quick => json!({"arity": 2, "pool": POOL.len(), "flag_passes": 4, "script_lines": 3, "script_line_pool": SCRIPT_LINES.len()}),
-        Tier::Thorough => json!({"arity": 3, "pool": POOL.len(), "flag_passes": 4, "script_lines": 4, "script_line_pool": SCRIPT_LINES.len()}),
+        Tier::Quick => json!({"arity": 2, "pool": POOL.len(), "flag_passes": 18, "script_lines": 3, "script_line_pool": SCRIPT_LINES.len()}),
+        Tier::Thorough => json!({"arity": 3, "pool": POOL.len(), "flag_passes": 18, "script_lines": 4, "script_line_pool": SCRIPT_LINES.len()}),
     }
 }
 
@@ -231,7 +233,7 @@ pub fn worker(w: &mut Worker) {
 
     let names: Vec<String> = sdk_context().commands.get_all_command_names().into_iter().filter(|n| !denied(n)).collect();
     let arity = tier.pick(2usize, 3usize);
-    let flag_passes = 4usize;
+    let flag_passes = FLAGS.len();
 
     // (a) every command x every argument tuple
     for name in &names {
@@ -263,7 +265,7 @@ pub fn worker(w: &mut Worker) {
     // (a2) quick tier: option flag followed by two operands (the thorough tier has every triple)
     if tier == Tier::Quick {
         for name in &names {
-            for flag in FLAGS.iter().chain(["-r"].iter()) {
+            for flag in FLAGS.iter().take(4).chain(["-r"].iter()) {
                 for i in 0..POOL.len() {
                     for j in 0..POOL.len() {
                         if POOL[i] == "--FLAG" || POOL[j] == "--FLAG" {
@@ -482,7 +484,7 @@ pub fn crash_sig(case: &Value, kind: &str) -> String {
     }
 }
 
-pub const RULE: &str = "(a) every registered command of the standard library (discovered at run time; excluded: read, sleep, exec, spawn, exit, watchdog, everything under std::net, test_directory/test_file, cd, temp_file/temp_dir) x every argument tuple up to the arity bound from a 26-value pool {empty, a lone line break, multi-byte text at two byte alignments, a, 'a b', j (the name of a decoded JSON array variable set whose length entry is 99999999999), multi-byte, -1, 0, 1, 2.5, 20-digit number, i64::MAX, i64::MIN, live array/map/set/byte-array handle, an array containing its own handle, a map whose child array points back to it, an array holding a map that holds itself (a cycle not through the root), released handle, -r, text with a line break, a flag (--copy/--prefix/--collection/--file)}, each on a freshly prepared context in a scratch working directory that is reset before every case to the tree {file a, file 0, directory 1 with a file} (the quick tier adds every 'flag operand operand' triple); (b) 15 two-step histories (use after release, push/pop --copy of undefined and repeated names, removed or shadowed commands used by library scripts); (c) every script of up to n lines over 24 awkward lines (unmatched end/else/elseif/return, fn without name or end, for without array, goto to a missing label, goto loops, calls of undefined functions, ...) run with every command counted and the halt flag raised after 400 command entries; (d) a file that includes itself and a two-file include cycle; (e) for-in loops whose body clears, pops, removes from, releases, grows, replaces or unsets the array being iterated (sizes 0..3, three body shapes). Oracle: control returns with Ok or Err; a panic is caught and reported; an abort (stack overflow) or a hang (more than 4 s of CPU time, or 40 s of wall time, without returning) kills the worker process, is pinned to the case in flight by the supervisor and reported";
+pub const RULE: &str = "(a) every registered command of the standard library (discovered at run time; excluded: read, sleep, exec, spawn, exit, watchdog, everything under std::net, test_directory/test_file, cd, temp_file/temp_dir) x every argument tuple up to the arity bound from a 27-value pool {empty, NaN, a lone line break, multi-byte text at two byte alignments, a, 'a b', j (the name of a decoded JSON array variable set whose length entry is 99999999999), multi-byte, -1, 0, 1, 2.5, 20-digit number, i64::MAX, i64::MIN, live array/map/set/byte-array handle, an array containing its own handle, a map whose child array points back to it, an array holding a map that holds itself (a cycle not through the root), released handle, -r, text with a line break, a flag (each of the 18 option flags the library's commands know)}, each on a freshly prepared context in a scratch working directory that is reset before every case to the tree {file a, file 0, directory 1 with a file} (the quick tier adds every 'flag operand operand' triple); (b) 15 two-step histories (use after release, push/pop --copy of undefined and repeated names, removed or shadowed commands used by library scripts); (c) every script of up to n lines over 24 awkward lines (unmatched end/else/elseif/return, fn without name or end, for without array, goto to a missing label, goto loops, calls of undefined functions, ...) run with every command counted and the halt flag raised after 400 command entries; (d) a file that includes itself and a two-file include cycle; (e) for-in loops whose body clears, pops, removes from, releases, grows, replaces or unsets the array being iterated (sizes 0..3, three body shapes). Oracle: control returns with Ok or Err; a panic is caught and reported; an abort (stack overflow) or a hang (more than 4 s of CPU time, or 40 s of wall time, without returning) kills the worker process, is pinned to the case in flight by the supervisor and reported";
 pub const ASSUMPTIONS: &[&str] = &["values that would request huge allocations are not in the pool (allocation failure aborts by design of Rust)", "loop constructs are allowed to loop: they are ended through the halt flag, which is the embedder's documented way"];
 pub const EXHAUSTIVE: bool = true;
 pub const WALL_CAP_S: (u64, u64) = (58, 1700);
